@@ -62,6 +62,9 @@ func readPub(target, when string, reqs []reqRec) pubObs {
 	if err != nil {
 		return o // nothing published yet
 	}
+	if !filepath.IsAbs(ver) {
+		ver = filepath.Join(filepath.Dir(target), ver)
+	}
 	o.Present = true
 	o.Ver = filepath.Base(ver)
 	kb, err1 := os.ReadFile(filepath.Join(ver, "key.pem"))
